@@ -188,7 +188,7 @@ def build_raw(rng, mtype, sig, body, big, serial):
     if rng.random() < 0.5:
         rng.shuffle(headers)
     flags = rng.choice([0, 0, 1, 2, 3])
-    hdr = b''.join(marshal.marshal(message._headerFormat,
+    hdr = b''.join(marshal.marshal(c04.header_signature(),
                                    [ord('B') if big else ord('l'), mtype, flags, 1, len(bodyb), serial, headers],
                                    lendian=lend)[1])
     return hdr + b'\0' * (-len(hdr) % 8) + bodyb, oob
@@ -231,7 +231,7 @@ def build_variant_msg(rng, base, want, big, serial):
     headers.append([8, marshal.Signature(sig)])
     if k:
         headers.append([9, U(k)])
-    hdr = b''.join(marshal.marshal(message._headerFormat,
+    hdr = b''.join(marshal.marshal(c04.header_signature(),
                                    [ord('B') if big else ord('l'), mtype, 0, 1, len(bodyb), serial, headers],
                                    lendian=lend)[1])
     return hdr + b'\0' * (-len(hdr) % 8) + bodyb, fds, sig
@@ -360,44 +360,56 @@ def observe(ctx, events, mode='binary', script='', linux=False):
     from twisted.internet.testing import StringTransport
     from txdbus import protocol
     P, PServer = recv_classes(ctx)
-    protocol._is_linux = False
-    wrap = None
-    if mode == 'binary':
-        p = P()
-        p.log = []
-        p.transport = StringTransport()
-        p._receivedFDs = []
-        p._authenticated = True
-    else:
-        _, _, StubAuth, Wrap, authentication = c04.classes(ctx)
-        if mode in ('stub-client', 'stub-server'):
+    tr = StringTransport()
+    tr.socket = c04._FakeSocket()     # whatever the platform switch says, a server's first read finds a socket
+    if hasattr(protocol, '_is_linux'):
+        protocol._is_linux = bool(linux) and mode.endswith('server')
+    wrapbox = []
+    try:
+        if mode == 'binary':
             p = P()
-            p._client = (mode == 'stub-client')
-            cls = type('StubAuthS', (StubAuth,), {'script': script})
-            from zope.interface import classImplements
-            classImplements(cls, protocol.IDBusAuthenticator)
-            p.authenticator = cls
-        elif mode == 'real-client':
-            p = P()
-            p._client = True
-            p.authenticator = authentication.ClientAuthenticator
-        elif mode == 'real-server':
-            p = PServer()
-        elif mode == 'real-clientconn':
-            p = P.PClient()
+            p.log = []
+            p.transport = tr
+            p._receivedFDs = []
+            p._authenticated = True
         else:
-            raise ValueError(mode)
-        p.log = []
-        p.effects = []
-        p.factory = c04._FakeFactory()
-        tr = StringTransport()
-        if linux and mode.endswith('server'):
-            protocol._is_linux = True
-            tr.socket = c04._FakeSocket()
-        p.makeConnection(tr)
-        if mode.startswith('real'):
-            wrap = Wrap(p._dbusAuth, p)
-            p._dbusAuth = wrap
+            _, _, StubAuth, Wrap, authentication = c04.classes(ctx)
+
+            def wrapped(cls_):
+                # through the public hook `authenticator`: record each handled line and its outcome
+                def make(*a):
+                    w = Wrap(cls_(*a), p)
+                    wrapbox.append(w)
+                    return w
+                return make
+            if mode in ('stub-client', 'stub-server'):
+                p = P() if mode == 'stub-client' else PServer()      # the role comes from the real class
+                cls = type('StubAuthS', (StubAuth,), {'script': script})
+                from zope.interface import classImplements
+                classImplements(cls, protocol.IDBusAuthenticator)
+                p.authenticator = cls
+            elif mode == 'real-client':
+                p = P()
+                p.authenticator = wrapped(authentication.ClientAuthenticator)
+            elif mode == 'real-server':
+                p = PServer()
+                p.authenticator = wrapped(type(p).authenticator)
+            elif mode == 'real-clientconn':
+                p = P.PClient()
+                p.authenticator = wrapped(type(p).authenticator)
+            else:
+                raise ValueError(mode)
+            p.log = []
+            p.effects = []
+            p.factory = c04._FakeFactory()
+            p.makeConnection(tr)
+            if mode.startswith('real') and not wrapbox:
+                raise c04.HarnessFault('the authenticator hook was not used by connectionMade')
+    except c04.HarnessFault:
+        raise
+    except (AttributeError, TypeError) as e:
+        raise c04.HarnessFault('setting up mode %s failed: %s: %s' % (mode, type(e).__name__, e))
+    wrap = wrapbox[0] if wrapbox else None
     crashed = None
     for ev in events:
         try:
@@ -406,6 +418,11 @@ def observe(ctx, events, mode='binary', script='', linux=False):
             else:
                 p.dataReceived(bytes.fromhex(ev[1:]))
         except Exception as e:
+            import traceback
+            tb = traceback.extract_tb(e.__traceback__)
+            if isinstance(e, (AttributeError, TypeError)) and tb and tb[-1].filename.endswith(
+                    ('harness/c04.py', 'harness/c20.py')):
+                raise c04.HarnessFault('%s inside the harness at line %d: %s' % (type(e).__name__, tb[-1].lineno, e))
             crashed = type(e).__name__
             break
     ctx.impl_trace()
@@ -472,6 +489,9 @@ def judge(sc, o):
     return None, None
 
 
+SKIPPED = {}
+
+
 class Batch:
     def __init__(self, ctx):
         self.ctx = ctx
@@ -487,8 +507,19 @@ class Batch:
         items, self.items = self.items, []
         if not items:
             return
-        obs = [observe(ctx, sc['events'], sc.get('mode', 'binary'), sc.get('script', ''), sc.get('linux', False))
-               for _, sc, _ in items]
+        obs, kept = [], []
+        for it in items:
+            sc = it[1]
+            try:
+                obs.append(observe(ctx, sc['events'], sc.get('mode', 'binary'), sc.get('script', ''),
+                                   sc.get('linux', False)))
+                kept.append(it)
+            except c04.HarnessFault as e:
+                ctx.streams_run.add(it[0])
+                SKIPPED[it[0]] = SKIPPED.get(it[0], 0) + 1
+                if SKIPPED[it[0]] == 1:
+                    ctx.note('stream %s: scenario skipped, the harness could not run it (%s)' % (it[0], e))
+        items = kept
         out = ctx.model([model_line(sc, o['script']) for (_, sc, _), o in zip(items, obs)])
         for k, ((stream, sc, oracle), o) in enumerate(zip(items, obs)):
             withfd = any(d['args'] for d in o['log'])
@@ -740,7 +771,7 @@ def stream_recv_malformed(ctx, B):
             decl = rng.choice([None, 0, 1, nf, nf + 2, 2 ** 32 - 1])
             if decl is not None:
                 headers.append([9, marshal.UInt32(decl)])
-            hdr = b''.join(marshal.marshal(message._headerFormat,
+            hdr = b''.join(marshal.marshal(c04.header_signature(),
                                            [ord('l'), 2, 0, 1, len(bodyb), i + 1, headers])[1])
             raw = hdr + b'\0' * (-len(hdr) % 8) + bodyb
             msgs.append({'raw': raw, 'fds': [base + j for j in range(rng.choice([0, 1, nf]))], 'sig': 'h' * nf})
@@ -881,6 +912,7 @@ def run_corpus_entry(ctx, B, data):
 
 
 def run(ctx):
+    SKIPPED.clear()
     B = Batch(ctx)
     for name, data in ctx.corpus():
         run_corpus_entry(ctx, B, data)
@@ -892,6 +924,10 @@ def run(ctx):
     stream_recv_deep_queue(ctx, B)
     stream_recv_handshake(ctx, B)
     stream_recv_malformed(ctx, B)
+    for st, k in sorted(SKIPPED.items()):
+        ctx.note('stream %s: %d scenarios skipped by the harness (an internal it reaches for has moved)' % (st, k))
+    if SKIPPED and ctx.cases == 0:
+        raise RuntimeError('no stream of C20 could run: %r' % (SKIPPED,))
     for d in SENDER_DEFECTS[:20]:
         ctx.violation('sender-oob-order', 'the out-of-band list of a marshalled body is %r, its descriptor arguments '
                       'are %r (argument order)' % (d['oob'], d['fds']), inp=d, observed=d['oob'], expected=d['fds'])
